@@ -70,3 +70,7 @@ func RegistrationClosure(fn string, idx int) func(grpc.ServiceRegistrar) { retur
 
 // DeepEqual: structural equality (reflect.DeepEqual natively).
 func DeepEqual(a, b interface{}) bool { return false }
+
+// ShortReads: from now on the (modelled) decompressing reader may return
+// fewer bytes than asked for, as the io.Reader contract allows (engine only).
+func ShortReads(on bool) {}
